@@ -49,7 +49,7 @@ PROPERTIES: dict[str, dict] = {
     "C13": {"title": "Built-in solvers", "rules": [solvers.rule_c13_pairing_readonly, solvers.rule_c13_validity, solvers.rule_c13_choice, solvers.rule_c13_expected_greedy, solvers.rule_c13_registry, gym.rule_h3_undo, gym.rule_c09_typestate, gameplay.rule_c11_worker, hygiene.rule_no_module_state, hygiene.rule_dtypes, gym.rule_episode_state_reset],
             "explanation": _NOTE + " C13: V1 step/unstep pairing on all paths, V2 read-only use of the env, V3 returned action drawn from the mask-filtered list, V4 choice rules (extremum polarity, first match), V5 expected greedy (argmin over games axis, append+remove, curve row), REG-S registry.",
             "rule": _SITE_RULE},
-    "C14": {"title": "Regret minimiser", "rules": [regret.rule_r1_index_spaces, regret.rule_r1_coalition_args, regret.rule_r2_save_load, regret.rule_r345, coalitions.rule_k3_operators, hygiene.rule_no_module_state, hygiene.rule_dtypes],
+    "C14": {"title": "Regret minimiser", "rules": [regret.rule_r1_index_spaces, regret.rule_r1_coalition_args, regret.rule_r2_save_load, regret.rule_r345, regret.rule_r6_viability_filters, coalitions.rule_k3_operators, hygiene.rule_no_module_state, hygiene.rule_dtypes],
             "explanation": _NOTE + " C14: R1 index-space typing (allocation space must contain every index space used on the array; spaces COAL/PID/MID/RANK/RM derived from size expressions and provenance), R2 save/load agreement, R3 plus-clipping order, R4 fallback support, R5 ordering of coalition sets.",
             "rule": _SITE_RULE},
     "C15": {"title": "Normalisation", "rules": [normalize.rule_m1, normalize.rule_m2345, wiring.rule_graph_game, hygiene.rule_no_module_state, hygiene.rule_dtypes, normalize.rule_m6_stale_views],
